@@ -216,3 +216,54 @@ def boundary_class(m, t, t2=None):
     if w1 != w2:
         labels.append("weekyear")
     return "/".join(labels)
+
+
+def tp_from_inst(m, instant, rep, tzh, tzm, use24=False):
+    """The valid whole-second point in representation rep and offset (tzh, tzm) denoting
+    `instant` (seconds since 0001-01-01T00:00Z); the 24:00 spelling if use24 and it is midnight."""
+    local = instant + 3600 * tzh + 60 * tzm
+    day, sod = divmod(local, 86400)
+    hh, rem = divmod(sod, 3600)
+    mi, ss = divmod(rem, 60)
+    if use24 and sod == 0:
+        day -= 1
+        hh, mi, ss = 24, 0, 0
+    if rep == "c":
+        y, a, b = oracle.cal_of_day_num(m, day)
+    elif rep == "o":
+        y, a = oracle.ord_of_day_num(m, day)
+        b = 0
+    else:
+        y, a, b = oracle.week_of_day_num(m, day)
+    return (rep, y, a, b, hh, mi, ss, tzh, tzm)
+
+
+DELTAS = [0, 1, -1, 59, 60, -60, 61, 3599, 3600, -3600, 3601, 86399, 86400, -86400, 86401,
+          604800, 2678400, 31536000, -31536000, 31622400, 12622780800, -12622780800]
+
+
+def gen_pair(rng, m, delta=None):
+    """Two valid points (mixed representations / offsets / 24:00) at a chosen instant distance."""
+    a = gen_tp(rng, m)
+    if delta is None:
+        r = rng.random()
+        if r < 0.3:
+            delta = 0
+        elif r < 0.75:
+            delta = rng.choice(DELTAS)
+        elif r < 0.9:
+            delta = rng.randint(-200000, 200000)
+        else:
+            delta = rng.randint(-10 ** 11, 10 ** 11)
+    tzh, tzm = gens.offset(rng)
+    if rng.random() < 0.25:
+        tzh, tzm = a[7], a[8]
+    b = tp_from_inst(m, inst(m, a) + delta, rng.choice("cow"), tzh, tzm,
+                     use24=rng.random() < 0.5)
+    if rng.random() < 0.5:
+        return a, b
+    return b, a
+
+
+def sign(x):
+    return (x > 0) - (x < 0)
